@@ -23,13 +23,13 @@ verus! {
 //@verify atomic_from_bool
 
 // ---------------- parser.rs
-//@trusted index_of_first
-//@trusted index_of_first_hybrid
-//@trusted index_of_first_binary_temp
-//@trusted index_of_first_unary
 //@verify is_hybrid
 //@verify is_binary_temporal
 //@verify is_unary
+//@verify index_of_first
+//@verify index_of_first_hybrid
+//@verify index_of_first_binary_temp
+//@verify index_of_first_unary
 //@verify parse_hctl_tokens
 //@verify parse_1_hybrid
 //@verify parse_2_iff
